@@ -380,6 +380,19 @@ def msgpackable(t):
     return t
 
 
+def _marshal_objects(t):
+    """marshal can carry more than data: placeholders in the tree become a code object / a class object before encoding"""
+    if t == "$CODE":
+        return compile("__import__('os').getcwd()", "<c04>", "eval")
+    if t == "$STOPITER":
+        return StopIteration
+    if type(t) in (list, tuple):
+        return type(t)(_marshal_objects(x) for x in t)
+    if type(t) is dict:
+        return {k: _marshal_objects(v) for k, v in t.items()}
+    return t
+
+
 def _hashcons(t, table):
     """equal list/dict sub-structures become one and the same object (marshal then encodes them as references)"""
     if type(t) in (list, tuple):
@@ -409,6 +422,8 @@ def encode(case):
         shaped = (t, t, [], {})
     if case.get("shared"):
         shaped = _hashcons(shaped, {})
+    if case.get("marshal_objects") and ser == "marshal":
+        shaped = _marshal_objects(shaped)
     if ser == "json":
         if path != "loads":
             shaped = {"object": shaped[0], "method": shaped[1], "params": shaped[2], "kwargs": shaped[3]}
@@ -582,7 +597,8 @@ def run_case(case):
         bad, inst = [], []
         walk_result(res[1], set(), bad, inst)
         if bad:
-            viol("foreign-instance", "result contains instances of %s" % sorted(set(bad)))
+            viol("foreign-instance" + (":marshal-carries-code-and-class-objects" if case.get("marshal_objects") else ""),
+                 "result contains instances of %s" % sorted(set(bad)))
         explained = set()
         for tag, d, _pos in alltags:
             c = allowed_class(tag, d, case["ser"])
@@ -645,6 +661,14 @@ def sweep_tags():
         mod = sys.modules.get(m)
         attrs = [a for a in (dir(mod) if mod is not None else ["Canary", "x"]) if not a.startswith("_")][:400]
         names += [m + "." + a for a in attrs]
+    # tags of things that LOOK like harmless data / Pyro's own (what a serializer library writes for containers, the Pyro4 compatibility
+    # layer's subclasses, fragments of the accepted namespaces)
+    names += ["collections.OrderedDict", "OrderedDict", "collections.deque", "collections.Counter", "collections.defaultdict", "complex", "set",
+              "frozenset", "bytes", "bytearray", "tuple", "dict", "list", "decimal.Decimal", "uuid.UUID", "datetime.datetime", "array.array",
+              "Pyro5.compatibility.Pyro4.URI", "Pyro5.compatibility.Pyro4.Proxy", "Pyro5.compatibility.Pyro4.Daemon", "Pyro5.compatibility.Pyro4.Future",
+              "Pyro5.compatibility.Pyro4.sys.exit", "Pyro5.compatibility.Pyro4.config", "Pyro4.core.URI", "Pyro4.core.Proxy", "Pyro4.util.SerpentSerializer",
+              ".ValueError", "builtin.KeyError", "uiltins.OSError", "ions.KeyError", "s.ValueError", "builtinsexceptions.ValueError",
+              "Pyro5.errors.x.NamingError", "errors.NamingError", "Pyro5.core.URI.x", "Pyro5.client.Proxy ", " Pyro5.core.URI", "pyro5.core.URI"]
     for n in names:
         if n not in seen:
             seen.add(n)
@@ -728,6 +752,8 @@ def sweep_cases(shard_index, shard_count):
                     if args is not None:
                         d["args"] = args
                     d["state"] = ("PYRO", "obj", None, "localhost", 5555)
+                    d["items"] = [["k", {"__class__": "os.system", "args": ["x"]}]]      # (members some tags carry their content in)
+                    d["value"] = "5"
                     case = {"ser": ser, "path": "loads" if i % 3 else "call-args", "tree": d if i % 5 else [d]}
                     if ser in ("serpent", "json") and i % 4 == 1:
                         case["spell"] = "escaped"
@@ -742,6 +768,11 @@ def SHARDS(tier):
 def run(ctx):
     install_hook()
     n = 0
+    if ctx.shard.get("index", 0) == 1:
+        for tree in ("$CODE", ["$CODE"], {"k": ["$CODE", 1]}, "$STOPITER", [1, "$STOPITER"], {"__class__": "Pyro5.core.URI", "state": ["PYRO", "$CODE", None, "h", 1]}):
+            for path in ("loads", "call-args", "call-kwargs"):
+                case = {"ser": "marshal", "path": path, "tree": tree, "marshal_objects": True}
+                ctx.observe(case, run_case(case), True, ["marshal-objects", "path:" + path])
     if ctx.shard.get("index", 0) == 0:
         for case in registry_cases():
             ctx.observe(case, run_case(case), True, ["registry", "ser:" + case["ser"]])
